@@ -376,6 +376,11 @@ impl NetcodeClient {
 
 #[cfg(renet_verif)]
 impl NetcodeClient {
+    /// The connect token this client was built from (generated internally in unsecure mode).
+    pub fn verif_connect_token(&self) -> &ConnectToken {
+        &self.connect_token
+    }
+
     /// (state: 0 disconnected / 1 sending request / 2 sending response / 3 connected, sequence,
     ///  last packet received time, last packet send time, server address index, challenge token sequence)
     pub fn verif_state(&self) -> (u8, u64, Duration, Option<Duration>, usize, u64) {
